@@ -226,8 +226,10 @@ TEXT = {
           "models tied by a differential stream on pre-image, Serialize(), Deserialize (also on re-arranged wire forms), "
           "RLP and text-form bytes plus Go-side round-trip and one-field-alteration monitors.",
   "design_ref": "§3 C13",
-  "note": "Hash function is a parameter; T2 (stored bytes are a function of covered fields and state) and the two-node "
-          "`variants` stream are not built in this round; typed RLP decoding and JSON object structure are covered by "
+  "note": "Hash function is a parameter; T2 (stored bytes are a function of covered fields and state) is not a theorem: it is "
+          "decided on real nodes by the `variants` stream (every alteration of every field the hash does not cover, for user "
+          "blocks, contract blocks and momentums, delivered to a follower before the honest data; whatever is accepted must be "
+          "stored with the original's bytes; known finding F9 for ChangesHash); typed RLP decoding and JSON object structure are covered by "
           "Go-side round-trip monitors, T4 by an AST fact plus monitors (no Lean model of the ABI).",
   "technique": "Lean 4 proof (induction/omega/decide) + regenerated AST facts + differential correspondence",
  },
@@ -236,12 +238,16 @@ TEXT = {
           "with the primitives as parameters: isValidPath accepts exactly m(/<decimal below 2^32>')+, every HMAC step uses "
           "an index in [2^31,2^32), DeriveForPath succeeds iff all segments are below 2^31 (DeriveWithIndex iff i < 2^31), "
           "step input = 0x00||key||be32(i) injective, Decrypt(Encrypt(ks,pw),pw) = ks from open_seal, recorded address = "
-          "index-0 address, address = 0x00||sha3(pk)[:19], sign/verify from verify_sign; tied to the tree by regenerated "
+          "index-0 address, address = 0x00||sha3(pk)[:19], sign/verify from verify_sign; no sequence of operations on a "
+          "key file object (decrypt with any passwords, unlock/lock, write + read back) changes the key file, so the round "
+          "trip holds on every decryption (kfRun_keyfile, kfRun_right_password); tied to the tree by regenerated "
           "constants (regex text, ParseUint bit size, Argon2 parameters and AD string on both sides read from the AST) and "
           "a differential stream on the real wallet code with independently computed oracle values.",
   "design_ref": "§3 C19",
   "note": "Tamper evidence (wrong password / flipped bit fails) is a cryptographic assumption, covered by the stream's "
-          "monitor only; the JSON text layer is covered by the stream only.",
+          "monitor only (incl. near-miss passwords that differ in white space, case or normalisation); that the real "
+          "KeyFile object is not modified by reading it is the stream's sequence monitor + model comparison; the JSON text "
+          "layer is covered by the stream only.",
   "technique": "Lean 4 proof (induction/omega/simp) + regenerated facts from AST + differential correspondence with oracle tables",
  },
  "C18": {
@@ -280,7 +286,10 @@ TEXT = {
           "cursor, deposits and history entries.",
   "design_ref": "§3 C11",
   "note": "Credited amounts enter the cursor model as observed inputs (arithmetic proved separately); node-independence "
-          "of the consensus statistics is correspondence (followers synced one by one, in batches, with restarts), not a "
+          "of the consensus statistics: the aggregation of period points into an epoch point is a Lean function that counts "
+          "every momentum once (Props.C11Points), compared with folds over real cached storage.Point objects; that a node's "
+          "answers do not depend on what it was asked before is correspondence (each question twice, against a fresh "
+          "consensus instance, statistics against the chain, followers synced one by one, in batches, with restarts), not a "
           "theorem. Known finding F14: the origin/accelerator-table liquidity Update consumes one epoch without reward when "
           "more than 10 epochs behind (partial theorem + negative witness; reproduced on a real chain by the stream).",
   "technique": "Lean 4 proof (well-founded recursion, induction, omega, decide over generated tables) + regenerated constants + "
